@@ -740,7 +740,39 @@ def op_loop_problems(form, r):
     return Plan(form, anyof=[f"{TOK}l", "loop"], row=rows_of(form)[id(node)][0], stable=False)
 
 
+def op_bad_attribute_header(form, r):
+    kind = r.choice(["survey", "settings"])
+    if kind == "settings":
+        key = r.choice([f"attribute::9{TOK}", f"attribute::{TOK} b", f"attribute::{TOK}:x"])
+        form.setdefault("settings", {})[key] = "v"
+        return Plan(form, tokens=[key.split("::")[1]], stable=False, note="settings")
+    c = _pick(r, _questions(form, lambda n: base_type(n["c"].get("type")) in VISIBLE_SIMPLE and any(k.split("::")[0] == "label" for k in n["c"])
+                            and "calculation" not in n["c"] and "trigger" not in n["c"]))
+    if not c:
+        return None
+    n, anc = c
+    key = r.choice([f"bind::9{TOK}", f"body::{TOK} b", f"instance::{TOK}:x", f"bind::{TOK}:y", f"body::a:{TOK}:c"])
+    n["c"][key] = "v"
+    return Plan(form, tokens=[key.split("::")[1]], depth=len(anc), stable=False, note=key.split("::")[0])
+
+
+def op_illegal_character(form, r):
+    c = _pick(r, _questions(form, lambda n: base_type(n["c"].get("type")) in VISIBLE_SIMPLE and "label" in n["c"]
+                            and "calculation" not in n["c"] and "trigger" not in n["c"]))
+    if not c:
+        return None
+    n, anc = c
+    ch = r.choice(["\x01", "\x0b", "\ufffe", "\x1f"])
+    with_ref = r.random() < 0.4
+    names = [m["c"]["name"] for m, _ in _questions(form, lambda m: "name" in m["c"] and base_type(m["c"].get("type")) in VISIBLE_SIMPLE) if m is not n]
+    text = f"bad{ch}char" + (" ${%s}" % r.choice(names) if with_ref and names else "")
+    for k in [k for k in n["c"] if k.split("::")[0] == "label"]:   # every language variant: an unsuffixed label may be shadowed
+        n["c"][k] = text
+    return Plan(form, anyof=[f"U+{ord(ch):04X}", "cannot be written as XML"], depth=len(anc), stable=False, note="with-ref" if with_ref and names else "plain")
+
+
 OPS = {
+    "bad-attribute-header": op_bad_attribute_header, "illegal-character": op_illegal_character,
     "extra-end": op_extra_end, "missing-end": op_missing_end, "mismatched-end": op_mismatched_end, "dup-sibling": op_dup_sibling,
     "invalid-name": op_invalid_name, "missing-name": op_missing_name, "missing-type": op_missing_type, "unknown-type": op_unknown_type,
     "unknown-ref": op_unknown_ref, "unknown-ref-last-saved": op_unknown_ref_last_saved, "ambiguous-ref": op_ambiguous_ref,
@@ -900,7 +932,7 @@ S_PARAMS = ["rows=3", "rows=x", "max-pixels=100", "max-pixels=x", "app=com.a.b",
             "location-priority=balanced location-min-interval=1 location-max-age=2", "location-min-interval=-1", "ROWS=3", "rows=3 rows=4"]
 S_APPEAR = ["minimal", "field-list", "table-list", "table-list minimal", "label", "list-nolabel", "search('f')", "search('f', 'matches', 'a', ${q1})",
             "search(", "quick", "multiline", "annotate", "w1", "${q1}", "hidden", "field-list table-list"]
-S_TEXT = ["A", "hello", "see ${q1}", "${zz}", "<b>", "&", "x" * 30, "1", "-", " ", "ünï"]
+S_TEXT = ["A", "hello", "ctl\x01char", "see ${q1}", "${zz}", "<b>", "&", "x" * 30, "1", "-", " ", "ünï"]
 S_COLS = ["label", "hint", "relevant", "required", "constraint", "constraint_message", "required_message", "calculation", "default", "trigger",
           "choice_filter", "appearance", "parameters", "repeat_count", "readonly", "guidance_hint", "image", "audio", "video", "big-image",
           "label::en", "label::fr", "hint::en", "image::en", "save_to", "disabled", "bind::foo", "bind::jr:x", "bind::", "instance::a",
